@@ -766,6 +766,8 @@ class _Frame:
                 return getattr(obj, attr)
             if attr == "astype":
                 return lambda *a, **k: obj
+            if attr in ("integrate", "_ndim") and hasattr(obj, attr):
+                return getattr(obj, attr)
             raise self.bad(f"array attribute {attr}", n)
         if isinstance(obj, XObj):
             return self.obj_attr(obj, attr, n)
@@ -969,6 +971,8 @@ def exact_tree(v):
 
 
 def _np_array(obj, dtype=None, **kw):
+    if dtype is object and isinstance(obj, (list, tuple)):
+        return XArray((len(obj),), [exact_tree(x) for x in obj])
     a = XArray.from_nested(exact_tree(obj) if not isinstance(obj, XArray) else obj)
     return a
 
@@ -1241,6 +1245,7 @@ _PY_BUILTINS = {
     "isinstance": _py_isinstance,
     "int": int,
     "float": float,
+    "object": object,
     "str": str,
     "bool": bool,
     "list": lambda x=(): list(x),
